@@ -311,13 +311,13 @@ func c04Run(c *Ctx) {
 		all[i] = i
 	}
 	if c.Thorough() {
-		if !run(5, 3, false, all) {
+		if !run(4, 3, false, all) {
 			return
 		}
-		if !run(4, 3, true, []int{0, 4, 8}) {
+		if !run(5, 3, false, []int{0, 4, 8, 9}) {
 			return
 		}
-		run(6, 3, false, []int{0})
+		run(4, 3, true, []int{0, 4, 8})
 	} else {
 		run(4, 2, false, all)
 	}
@@ -331,7 +331,7 @@ func init() {
 			"The reference keeps a stack of block scopes. Non-trivial: the sequence opens a block and reads or assigns inside/after it",
 		Bounds: func(tier string) map[string]any {
 			if tier == "thorough" {
-				return map[string]any{"ops": len(c04Ops(false)), "max_len": 5, "max_len_empty_data": 6, "depth": 3, "wide_type_alphabet_len": 4, "data_maps": len(c04DataMaps())}
+				return map[string]any{"ops": len(c04Ops(false)), "max_len_all_data_maps": 4, "max_len_4_data_maps": 5, "depth": 3, "wide_type_alphabet_len": 4, "data_maps": len(c04DataMaps())}
 			}
 			return map[string]any{"ops": len(c04Ops(false)), "max_len": 4, "depth": 2, "data_maps": len(c04DataMaps())}
 		},
